@@ -395,9 +395,21 @@ pub struct RecL {
 }
 
 fn cb(l: &RecL, what: &'static str, entity: Hd, total: i32, change: i32) -> std::future::Ready<()> {
+    cbx(l, what, entity, total, change, 0, [0; 16], vec![])
+}
+#[allow(clippy::too_many_arguments)]
+fn cbx(l: &RecL, what: &'static str, entity: Hd, total: i32, change: i32, code: i32, last: Hd, policies: Vec<(i32, i32)>) -> std::future::Ready<()> {
     let (step, t) = with_core(|c| (c.step, c.now));
-    with_hist(|h| h.callbacks.push(Callback { step, t, level: l.level, owner: l.owner, what, entity, total, change }));
+    with_hist(|h| h.callbacks.push(Callback { step, t, level: l.level, owner: l.owner, what, entity, total, change, code, last, policies }));
     std::future::ready(())
+}
+fn rej_code(k: SampleRejectedStatusKind) -> i32 {
+    match k {
+        SampleRejectedStatusKind::NotRejected => 0,
+        SampleRejectedStatusKind::RejectedByInstancesLimit => 1,
+        SampleRejectedStatusKind::RejectedBySamplesLimit => 2,
+        SampleRejectedStatusKind::RejectedBySamplesPerInstanceLimit => 3,
+    }
 }
 fn hd(h: dust_dds::infrastructure::instance::InstanceHandle) -> Hd {
     h.into()
@@ -408,19 +420,19 @@ impl<Foo: 'static> DataReaderListener<Foo> for RecL {
         cb(self, "on_data_available", hd(r.get_instance_handle()), 0, 0)
     }
     fn on_sample_rejected(&mut self, r: DataReaderAsync<Foo>, s: SampleRejectedStatus) -> impl Future<Output = ()> + Send {
-        cb(self, "on_sample_rejected", hd(r.get_instance_handle()), s.total_count, s.total_count_change)
+        cbx(self, "on_sample_rejected", hd(r.get_instance_handle()), s.total_count, s.total_count_change, rej_code(s.last_reason), hd(s.last_instance_handle), vec![])
     }
     fn on_liveliness_changed(&mut self, r: DataReaderAsync<Foo>, s: LivelinessChangedStatus) -> impl Future<Output = ()> + Send {
         cb(self, "on_liveliness_changed", hd(r.get_instance_handle()), s.alive_count, s.alive_count_change)
     }
     fn on_requested_deadline_missed(&mut self, r: DataReaderAsync<Foo>, s: RequestedDeadlineMissedStatus) -> impl Future<Output = ()> + Send {
-        cb(self, "on_requested_deadline_missed", hd(r.get_instance_handle()), s.total_count, s.total_count_change)
+        cbx(self, "on_requested_deadline_missed", hd(r.get_instance_handle()), s.total_count, s.total_count_change, 0, hd(s.last_instance_handle), vec![])
     }
     fn on_requested_incompatible_qos(&mut self, r: DataReaderAsync<Foo>, s: RequestedIncompatibleQosStatus) -> impl Future<Output = ()> + Send {
-        cb(self, "on_requested_incompatible_qos", hd(r.get_instance_handle()), s.total_count, s.total_count_change)
+        cbx(self, "on_requested_incompatible_qos", hd(r.get_instance_handle()), s.total_count, s.total_count_change, s.last_policy_id, [0; 16], s.policies.iter().map(|p| (p.policy_id, p.count)).collect())
     }
     fn on_subscription_matched(&mut self, r: DataReaderAsync<Foo>, s: SubscriptionMatchedStatus) -> impl Future<Output = ()> + Send {
-        cb(self, "on_subscription_matched", hd(r.get_instance_handle()), s.total_count, s.total_count_change)
+        cbx(self, "on_subscription_matched", hd(r.get_instance_handle()), s.total_count, s.total_count_change, s.current_count, hd(s.last_publication_handle), vec![(s.current_count_change, 0)])
     }
     fn on_sample_lost(&mut self, r: DataReaderAsync<Foo>, s: SampleLostStatus) -> impl Future<Output = ()> + Send {
         cb(self, "on_sample_lost", hd(r.get_instance_handle()), s.total_count, s.total_count_change)
@@ -432,13 +444,13 @@ impl<Foo: 'static> DataWriterListener<Foo> for RecL {
         cb(self, "on_liveliness_lost", hd(w.get_instance_handle()), s.total_count, s.total_count_change)
     }
     fn on_offered_deadline_missed(&mut self, w: DataWriterAsync<Foo>, s: OfferedDeadlineMissedStatus) -> impl Future<Output = ()> + Send {
-        cb(self, "on_offered_deadline_missed", hd(w.get_instance_handle()), s.total_count, s.total_count_change)
+        cbx(self, "on_offered_deadline_missed", hd(w.get_instance_handle()), s.total_count, s.total_count_change, 0, hd(s.last_instance_handle), vec![])
     }
     fn on_offered_incompatible_qos(&mut self, w: DataWriterAsync<Foo>, s: OfferedIncompatibleQosStatus) -> impl Future<Output = ()> + Send {
-        cb(self, "on_offered_incompatible_qos", hd(w.get_instance_handle()), s.total_count, s.total_count_change)
+        cbx(self, "on_offered_incompatible_qos", hd(w.get_instance_handle()), s.total_count, s.total_count_change, s.last_policy_id, [0; 16], s.policies.iter().map(|p| (p.policy_id, p.count)).collect())
     }
     fn on_publication_matched(&mut self, w: DataWriterAsync<Foo>, s: PublicationMatchedStatus) -> impl Future<Output = ()> + Send {
-        cb(self, "on_publication_matched", hd(w.get_instance_handle()), s.total_count, s.total_count_change)
+        cbx(self, "on_publication_matched", hd(w.get_instance_handle()), s.total_count, s.total_count_change, s.current_count, hd(s.last_subscription_handle), vec![(s.current_count_change, 0)])
     }
 }
 
@@ -447,13 +459,13 @@ impl PublisherListener for RecL {
         cb(self, "on_liveliness_lost", hd(w.get_instance_handle()), s.total_count, s.total_count_change)
     }
     fn on_offered_deadline_missed(&mut self, w: DataWriterAsync<()>, s: OfferedDeadlineMissedStatus) -> impl Future<Output = ()> + Send {
-        cb(self, "on_offered_deadline_missed", hd(w.get_instance_handle()), s.total_count, s.total_count_change)
+        cbx(self, "on_offered_deadline_missed", hd(w.get_instance_handle()), s.total_count, s.total_count_change, 0, hd(s.last_instance_handle), vec![])
     }
     fn on_offered_incompatible_qos(&mut self, w: DataWriterAsync<()>, s: OfferedIncompatibleQosStatus) -> impl Future<Output = ()> + Send {
-        cb(self, "on_offered_incompatible_qos", hd(w.get_instance_handle()), s.total_count, s.total_count_change)
+        cbx(self, "on_offered_incompatible_qos", hd(w.get_instance_handle()), s.total_count, s.total_count_change, s.last_policy_id, [0; 16], s.policies.iter().map(|p| (p.policy_id, p.count)).collect())
     }
     fn on_publication_matched(&mut self, w: DataWriterAsync<()>, s: PublicationMatchedStatus) -> impl Future<Output = ()> + Send {
-        cb(self, "on_publication_matched", hd(w.get_instance_handle()), s.total_count, s.total_count_change)
+        cbx(self, "on_publication_matched", hd(w.get_instance_handle()), s.total_count, s.total_count_change, s.current_count, hd(s.last_subscription_handle), vec![(s.current_count_change, 0)])
     }
 }
 
@@ -465,19 +477,19 @@ impl SubscriberListener for RecL {
         cb(self, "on_data_available", hd(r.get_instance_handle()), 0, 0)
     }
     fn on_sample_rejected(&mut self, r: DataReaderAsync<()>, s: SampleRejectedStatus) -> impl Future<Output = ()> + Send {
-        cb(self, "on_sample_rejected", hd(r.get_instance_handle()), s.total_count, s.total_count_change)
+        cbx(self, "on_sample_rejected", hd(r.get_instance_handle()), s.total_count, s.total_count_change, rej_code(s.last_reason), hd(s.last_instance_handle), vec![])
     }
     fn on_liveliness_changed(&mut self, r: DataReaderAsync<()>, s: LivelinessChangedStatus) -> impl Future<Output = ()> + Send {
         cb(self, "on_liveliness_changed", hd(r.get_instance_handle()), s.alive_count, s.alive_count_change)
     }
     fn on_requested_deadline_missed(&mut self, r: DataReaderAsync<()>, s: RequestedDeadlineMissedStatus) -> impl Future<Output = ()> + Send {
-        cb(self, "on_requested_deadline_missed", hd(r.get_instance_handle()), s.total_count, s.total_count_change)
+        cbx(self, "on_requested_deadline_missed", hd(r.get_instance_handle()), s.total_count, s.total_count_change, 0, hd(s.last_instance_handle), vec![])
     }
     fn on_requested_incompatible_qos(&mut self, r: DataReaderAsync<()>, s: RequestedIncompatibleQosStatus) -> impl Future<Output = ()> + Send {
-        cb(self, "on_requested_incompatible_qos", hd(r.get_instance_handle()), s.total_count, s.total_count_change)
+        cbx(self, "on_requested_incompatible_qos", hd(r.get_instance_handle()), s.total_count, s.total_count_change, s.last_policy_id, [0; 16], s.policies.iter().map(|p| (p.policy_id, p.count)).collect())
     }
     fn on_subscription_matched(&mut self, r: DataReaderAsync<()>, s: SubscriptionMatchedStatus) -> impl Future<Output = ()> + Send {
-        cb(self, "on_subscription_matched", hd(r.get_instance_handle()), s.total_count, s.total_count_change)
+        cbx(self, "on_subscription_matched", hd(r.get_instance_handle()), s.total_count, s.total_count_change, s.current_count, hd(s.last_publication_handle), vec![(s.current_count_change, 0)])
     }
     fn on_sample_lost(&mut self, r: DataReaderAsync<()>, s: SampleLostStatus) -> impl Future<Output = ()> + Send {
         cb(self, "on_sample_lost", hd(r.get_instance_handle()), s.total_count, s.total_count_change)
@@ -498,10 +510,10 @@ impl DomainParticipantListener for RecL {
         cb(self, "on_liveliness_lost", hd(w.get_instance_handle()), s.total_count, s.total_count_change)
     }
     fn on_offered_deadline_missed(&mut self, w: DataWriterAsync<()>, s: OfferedDeadlineMissedStatus) -> impl Future<Output = ()> + Send {
-        cb(self, "on_offered_deadline_missed", hd(w.get_instance_handle()), s.total_count, s.total_count_change)
+        cbx(self, "on_offered_deadline_missed", hd(w.get_instance_handle()), s.total_count, s.total_count_change, 0, hd(s.last_instance_handle), vec![])
     }
     fn on_offered_incompatible_qos(&mut self, w: DataWriterAsync<()>, s: OfferedIncompatibleQosStatus) -> impl Future<Output = ()> + Send {
-        cb(self, "on_offered_incompatible_qos", hd(w.get_instance_handle()), s.total_count, s.total_count_change)
+        cbx(self, "on_offered_incompatible_qos", hd(w.get_instance_handle()), s.total_count, s.total_count_change, s.last_policy_id, [0; 16], s.policies.iter().map(|p| (p.policy_id, p.count)).collect())
     }
     fn on_sample_lost(&mut self, r: DataReaderAsync<()>, s: SampleLostStatus) -> impl Future<Output = ()> + Send {
         cb(self, "on_sample_lost", hd(r.get_instance_handle()), s.total_count, s.total_count_change)
@@ -510,21 +522,21 @@ impl DomainParticipantListener for RecL {
         cb(self, "on_data_available", hd(r.get_instance_handle()), 0, 0)
     }
     fn on_sample_rejected(&mut self, r: DataReaderAsync<()>, s: SampleRejectedStatus) -> impl Future<Output = ()> + Send {
-        cb(self, "on_sample_rejected", hd(r.get_instance_handle()), s.total_count, s.total_count_change)
+        cbx(self, "on_sample_rejected", hd(r.get_instance_handle()), s.total_count, s.total_count_change, rej_code(s.last_reason), hd(s.last_instance_handle), vec![])
     }
     fn on_liveliness_changed(&mut self, r: DataReaderAsync<()>, s: LivelinessChangedStatus) -> impl Future<Output = ()> + Send {
         cb(self, "on_liveliness_changed", hd(r.get_instance_handle()), s.alive_count, s.alive_count_change)
     }
     fn on_requested_deadline_missed(&mut self, r: DataReaderAsync<()>, s: RequestedDeadlineMissedStatus) -> impl Future<Output = ()> + Send {
-        cb(self, "on_requested_deadline_missed", hd(r.get_instance_handle()), s.total_count, s.total_count_change)
+        cbx(self, "on_requested_deadline_missed", hd(r.get_instance_handle()), s.total_count, s.total_count_change, 0, hd(s.last_instance_handle), vec![])
     }
     fn on_requested_incompatible_qos(&mut self, r: DataReaderAsync<()>, s: RequestedIncompatibleQosStatus) -> impl Future<Output = ()> + Send {
-        cb(self, "on_requested_incompatible_qos", hd(r.get_instance_handle()), s.total_count, s.total_count_change)
+        cbx(self, "on_requested_incompatible_qos", hd(r.get_instance_handle()), s.total_count, s.total_count_change, s.last_policy_id, [0; 16], s.policies.iter().map(|p| (p.policy_id, p.count)).collect())
     }
     fn on_publication_matched(&mut self, w: DataWriterAsync<()>, s: PublicationMatchedStatus) -> impl Future<Output = ()> + Send {
-        cb(self, "on_publication_matched", hd(w.get_instance_handle()), s.total_count, s.total_count_change)
+        cbx(self, "on_publication_matched", hd(w.get_instance_handle()), s.total_count, s.total_count_change, s.current_count, hd(s.last_subscription_handle), vec![(s.current_count_change, 0)])
     }
     fn on_subscription_matched(&mut self, r: DataReaderAsync<()>, s: SubscriptionMatchedStatus) -> impl Future<Output = ()> + Send {
-        cb(self, "on_subscription_matched", hd(r.get_instance_handle()), s.total_count, s.total_count_change)
+        cbx(self, "on_subscription_matched", hd(r.get_instance_handle()), s.total_count, s.total_count_change, s.current_count, hd(s.last_publication_handle), vec![(s.current_count_change, 0)])
     }
 }
